@@ -60,7 +60,7 @@ def peel_const(x):
     return x, d
 
 
-def name_atom(term, hdr_size, full_size, lower=None):
+def name_atom(term, hdr_size, full_size, lower=None, effects=None):
     """classify a condition term of the open path -> (atom name, 'passes when' truth) or None.
     `lower`: the largest k for which this path already knows `declared size >= k` (makes `size - k` exact)"""
     ft = fmt(term)
@@ -68,7 +68,7 @@ def name_atom(term, hdr_size, full_size, lower=None):
         return None
     op = term[1]
     if op == 'Not':
-        inner = name_atom(term[2][0], hdr_size, full_size, lower)
+        inner = name_atom(term[2][0], hdr_size, full_size, lower, effects)
         return (inner[0], not inner[1]) if inner is not None else None
     # the nix wrappers return Result: Err exactly when the libc call reports failure
     if op == 'discr' and term[2][0][0] == 't' and term[2][0][1] == 'call' and term[2][0][2][0].startswith('nix::'):
@@ -135,9 +135,13 @@ def name_atom(term, hdr_size, full_size, lower=None):
             return ('read<header(%d)' % cb, False)
         return None
     if op == 'call' and term[2][0].endswith(('::eq', '::ne')) and ('.%s' % HDR['magic']) in ft:
-        for y in term[2][2:]:
+        n_ef = term[2][1]
+        pts = (effects[n_ef].get('pointees') if effects is not None and isinstance(n_ef, int) and n_ef < len(effects) else None) or []
+        for ai, y in enumerate(term[2][2:]):
             if ('.%s' % HDR['magic']) not in fmt(y):
                 words = magic_words(y)
+                if words is None and ai < len(pts) and pts[ai] is not None:
+                    words = magic_words(pts[ai])          # the array was passed by value: what the reference pointed to at the call
                 if words is not None:
                     MAGIC_COMPARED.append(words)
         return ('magic==SHM_MAGIC', term[2][0].endswith('::eq'))
@@ -199,7 +203,7 @@ class OpenModel:
             lower = None
             for term, op, val, _ in p.conds:
                 t = truth_of(op, val)
-                a = name_atom(term, self.hdr_size, self.hdr_size + self.rec_size, lower)
+                a = name_atom(term, self.hdr_size, self.hdr_size + self.rec_size, lower, p.effects)
                 if a is not None and t is not None and a[0].startswith('segsize>=') and t == a[1]:
                     lower = max(lower or 0, int(a[0][len('segsize>='):]))
                 if a is None and term[0] == 't' and term[1] == 'call' and 'atomic' in term[2][0] and term[2][0].endswith('::load'):
